@@ -3,7 +3,7 @@
 # Apply a patch to /repo under an exclusive lock (so no other check sees the mutated tree), run the
 # given checks, always restore /repo, print each check's exit code. The patch is a `git diff` of /repo.
 set -u
-patch="$1"; shift
+patch="$(realpath "$1")"; shift
 mkdir -p /verif/target
 exec 9>/verif/target/repo.lock
 flock -x 9
